@@ -196,6 +196,7 @@ def process_attribs_item(prop="C04"):
     c.hints["dict_list_elem"] = "str"
     c.param("self", TRef("FortranCodeUnit"))
     c.param("item", TRef("FortranBase"))
+    c.param("named", TList("str"))
     E = lambda v: V(v._e, v._e.entry)
 
     def setup(eng, path):
@@ -221,13 +222,14 @@ def process_attribs_item(prop="C04"):
         d = adict(v)
         lid = z3.Select(v.heap.dict_val(d), key(v))
         at = sel(H(v, "attribs"), v.item)
-        return z3.And(v.item != v.self, at > 0, at < a0, z3.Implies(z3.Select(v.heap.dict_has(d), key(v)), z3.And(lid > 0, lid < a0, lid != at)),
+        nid = v.val("named").id
+        return z3.And(v.item != v.self, at > 0, at < a0, nid != at, z3.Implies(z3.Select(v.heap.dict_has(d), key(v)), z3.And(lid > 0, lid < a0, lid != at, lid != nid)),
                       sel(H(v, "attr_dict"), v.self) > 0, proc_of(v) != v.item)
     c.requires("shape", req)
     c.loop(0, invariants=[
         ("permission_is_last_access_attribute_so_far", lambda v: H(v, "permission") == z3.Store(H(E(v), "permission"), E(v).item, LASTACC(v.it.seq, v.k, perm0(E(v))))),
         ("attribs_grow_by_the_other_attributes", lambda v: lst(v, "attribs", E(v).item, "str") == z3.Concat(lst(E(v), "attribs", E(v).item, "str"), OTHERS(v.it.seq, v.k, takes_bind(E(v))))),
-        ("frame", lambda v: z3.And(v.it.seq == attrs0(E(v)), H(v, "attribs") == H(E(v), "attribs"), H(v, "procedure") == H(E(v), "procedure"), H(v, "name") == H(E(v), "name"),
+        ("frame", lambda v: z3.And(v.it.seq == attrs0(E(v)), v.named == E(v).named, H(v, "attribs") == H(E(v), "attribs"), H(v, "procedure") == H(E(v), "procedure"), H(v, "name") == H(E(v), "name"),
                                    H(v, "attr_dict") == H(E(v), "attr_dict"), z3.Select(v._e.has_array(v._p, "bindC"), E(v).item) == z3.Select(E(v)._e.has_array(E(v)._p, "bindC"), E(v).item))),
     ], unfold=lambda v: _pa_unfold(v.it.seq, v.k, perm0(E(v)), takes_bind(E(v))), variant=lambda v: z3.Length(v.it.seq) - v.k)
     c.post_facts = lambda v0: [LASTACC(attrs0(v0), 0, perm0(v0)) == perm0(v0), OTHERS(attrs0(v0), 0, takes_bind(v0)) == z3.Empty(SI)]
@@ -238,7 +240,16 @@ def process_attribs_item(prop="C04"):
         return z3.And(H(v1, "permission") == z3.Store(H(v0, "permission"), v0.item, LASTACC(a, n, perm0(v0))),     # this entity: last access statement wins; nobody else changes
                       lst(v1, "attribs", v0.item, "str") == z3.Concat(lst(v0, "attribs", v0.item, "str"), OTHERS(a, n, takes_bind(v0))))
     c.ensures("permission_is_the_last_access_statement_naming_the_entity_else_unchanged", post)
-    c.ensures("recorded_statements_are_consumed", lambda v0, res, v1: z3.Not(z3.Select(v1.heap.dict_has(adict(v1)), key(v0))))
+    # an identifier can stand for several entities of the scope (a type and its constructor, a generic and a specific procedure, a generic declared in two blocks): what is
+    # recorded for the name stays available to the next entity of that name; the name is noted for removal after the loop
+    def kept(v0, res, v1):
+        d0, d1 = adict(v0), adict(v1)
+        n0, n1 = v0.named, v1.named
+        present = z3.Select(v0.heap.dict_has(d0), key(v0))
+        return z3.And(z3.Implies(present, z3.And(z3.Select(v1.heap.dict_has(d1), key(v0)),
+                                                 v1.heap.list_get(SList(z3.Select(v1.heap.dict_val(d1), key(v0)), "str")) == attrs0(v0))),
+                      z3.Length(n1) == z3.Length(n0) + 1, z3.SubSeq(n1, 0, z3.Length(n0)) == n0, STR_OF(n1[z3.Length(n0)]) == key(v0))
+    c.ensures("recorded_statements_stay_for_other_entities_of_the_name_and_the_name_is_noted_for_removal", kept)
     c.no_raise = True
     return c
 
